@@ -1,4 +1,4 @@
-//@props C02 C03 C04 C11
+//@props C02 C03 C04 C11 C13
 //@rewrite `naga::StorageAccess::LOAD` => `sa_load()` :: associated constants of a foreign bitflags type cannot be specified in Verus; sa_load() returns the real constant and states its bit value (spec/lib/prelude.rs)
 //@rewrite `naga::StorageAccess::STORE` => `sa_store()` :: as above
 //@rewrite `naga::StorageAccess::ATOMIC` => `sa_atomic()` :: as above
@@ -56,12 +56,12 @@ fn indexed_name_to_ident(name: &str, index: u32) -> «(r:» Ident«)
 }
 //@end
 
-//@fn lib.rs::quote_shader_stages props=C03
+//@fn lib.rs::quote_shader_stages props=C03,C02,C13
 fn quote_shader_stages(stages: wgpu::ShaderStages) -> «(r:» TokenStream«)
     requires
         stages.bits < 8, // [C03.stages-pre] only VERTEX|FRAGMENT|COMPUTE bits occur in the stage map
     ensures
-        ts_view(&r) == stages_toks(stages.bits), // [C03.stages-toks] the emitted expression denotes exactly this stage set: nothing missing, nothing added»
+        ts_view(&r) == stages_toks(stages.bits), // [C03.stages-toks] [C02.visibility-toks] [C13.stages-toks] the emitted expression denotes exactly this stage set: nothing missing, nothing added»
 {
     if stages == wgpu::ShaderStages::all() {
         quote!(wgpu::ShaderStages::all())
